@@ -283,10 +283,14 @@ func genHistory(seed uint64, spec *GenesisSpec, g *genOpts) (*History, *HistResu
 		if br.Panic != "" {
 			// identify the transaction that crashed the node
 			k := len(br.Txs)
+			stack := ""
+			if len(n.Stacks) > 0 {
+				stack = " STACK " + n.Stacks[len(n.Stacks)-1]
+			}
 			if k < len(gens) {
-				res.Panics = append(res.Panics, fmt.Sprintf("%s :: tx kind=%s data=%+v raw=%x", br.Panic, gens[k].Kind, gens[k].Data, gens[k].Raw))
+				res.Panics = append(res.Panics, fmt.Sprintf("%s :: tx kind=%s data=%+v raw=%x%s", br.Panic, gens[k].Kind, gens[k].Data, gens[k].Raw, stack))
 			} else {
-				res.Panics = append(res.Panics, br.Panic)
+				res.Panics = append(res.Panics, br.Panic+stack)
 			}
 			break
 		}
